@@ -17,10 +17,16 @@ class UnmodelledRandomness(Exception):
     two documented ones (module-level `random`, `numpy.random`)"""
 
 
+class RunawayDraws(Exception):
+    """a run consumed far more randomness than any run of the configuration can need (ordinary
+    Exception on purpose: it is reported as a failure of the call, and replayed)"""
+
+
 class RandomStub:
     """stands in for the module `random` inside EoN modules"""
 
-    def __init__(self, ties=False, max_expo=None, max_uniform_per_step=None, on_draw=None):
+    def __init__(self, ties=False, max_expo=None, max_uniform_per_step=None, on_draw=None, max_draws=None):
+        self.max_draws = max_draws
         self.ties = ties
         self.max_expo = max_expo
         self.max_unif = max_uniform_per_step
@@ -32,6 +38,8 @@ class RandomStub:
     def _log(self, *ent):
         symx.ENG.log.append(ent)
         self.n_draws += 1
+        if self.max_draws is not None and self.n_draws > self.max_draws:
+            raise RunawayDraws('more than %d random draws in one run' % self.max_draws)
         if self.on_draw:
             self.on_draw(ent)
 
